@@ -111,39 +111,55 @@ def writeRange (withScores : Bool) (s : MState) (o : Out) : BodyOut :=
 
 /-! ## ZADD … -/
 
+/-- the scores of ALL pairs are parsed before anything is written: the first bad one is the reply -/
+def parseScores : List (Bytes × Bytes) → Except Tok (List (Bytes × F64))
+  | [] => .ok []
+  | (sc, member) :: more =>
+    match FloatText.parseFloat sc with
+    | none => .error unsupported
+    | some none => .error e
+    | some (some score) =>
+      if F64.isNaN score then .error e else          -- `err != nil || math.IsNaN(score)`
+      match parseScores more with
+      | .error t => .error t
+      | .ok ps => .ok ((member, score) :: ps)
+
+/-- the closure of ZADD. NX with XX, GT with LT, NX with GT/LT are errors; no pair or a dangling score is an
+    error; INCR takes exactly one pair (and ignores NX/XX/GT/LT); every score is parsed before anything is
+    written; all pairs go to ONE `zAddPairs` transaction -/
+def zAddBody (args : List Bytes) (key : Bytes) (itemStart : Int) : Body := fun s now _ =>
+  let nx := decide (opt args "NX" > 0)
+  let xx := decide (opt args "XX" > 0)
+  let gt := decide (opt args "GT" > 0)
+  let lt := decide (opt args "LT" > 0)
+  if nx && xx then done s [e] else
+  if (gt && lt) || (nx && (gt || lt)) then done s [e] else
+  let rest := args.drop (itemStart + 1).toNat
+  if rest.length = 0 ∨ rest.length % 2 ≠ 0 then done s [e] else
+  if opt args "INCR" > 0 ∧ rest.length ≠ 2 then done s [e] else
+  match parseScores (pairsOf rest) with
+  | .error t => done s [t]
+  | .ok ps =>
+    if opt args "INCR" > 0 then
+      match ps with
+      | [] => panicOut s                                -- `members[0]`
+      | (member, score) :: _ =>
+        call (Api.zincrby s now key member score) fun s o =>
+          match o with
+          | .f64 v => done s [fmtScore v]
+          | _ => done s [unsupported]
+    else
+      call (Api.zaddPairs s now key nx xx gt lt (decide (opt args "CH" > 0)) ps) fun s o => done s [.int (intOf o)]
+
 /-- ZADD key [NX|XX] [GT|LT] [CH] [INCR] score member …: the pairs start after the LAST option word
-    wherever it stands; with any of INCR/XX/NX/LT/GT only the first pair is processed and its result
-    is the reply; CH is only a position marker; the score is parsed inside the closure -/
+    wherever it stands -/
 def zAdd (args : List Bytes) : HRes :=
   if args.length < 3 then errReply else
   let itemStart : Int := ["NX", "XX", "LT", "GT", "CH", "INCR"].foldl (fun m w => max m (opt args w)) 0
   if itemStart + 1 > args.length then errReply else
   match args with
   | [] => errReply
-  | key :: _ =>
-    .exec fun s now _ =>
-      let rec go : List (Bytes × Bytes) → MState → Int → BodyOut
-        | [], s, count => done s [.int count]
-        | (sc, member) :: more, s, count =>
-          match FloatText.parseFloat sc with
-          | none => done s [unsupported]
-          | some none => done s [e]
-          | some (some score) =>
-            if F64.isNaN score then done s [e] else          -- `err != nil || math.IsNaN(score)`
-            if opt args "INCR" > 0 then
-              call (Api.zincrby s now key member score) fun s o =>
-                match o with
-                | .f64 v => done s [fmtScore v]
-                | _ => done s [unsupported]
-            else if opt args "XX" > 0 then call (Api.zaddXX s now key member score) fun s o => done s [.int (intOf o)]
-            else if opt args "NX" > 0 then call (Api.zaddNX s now key member score) fun s o => done s [.int (intOf o)]
-            else if opt args "LT" > 0 then call (Api.zaddLT s now key member score) fun s o => done s [.int (intOf o)]
-            else if opt args "GT" > 0 then call (Api.zaddGT s now key member score) fun s o => done s [.int (intOf o)]
-            else
-              match Api.zadd s now key member score with
-              | (s, .panic) => panicOut s
-              | (s, o) => go more (Api.commit s) (count + intOf o)
-      go (pairsOf (args.drop (itemStart + 1).toNat)) s 0
+  | key :: _ => .exec (zAddBody args key itemStart)
 
 def zCard (args : List Bytes) : HRes :=
   match args with
